@@ -70,6 +70,10 @@ func checkC20(r *Run) {
 
 	cfile := func(fn *ssa.Function) bool { return p.FileOf(fn.Pos()) == "cfilesys.go" }
 	c20SessionWalkSendsAllNames(r)
+	c20Attach(r)
+	// the names cEnt.Walk sends are NormalizePath(names): the layer is faithful only if that normalisation is the
+	// specified one (rule shared with C16)
+	c16Normalize(r, p.Fn("p9p:NormalizePath"))
 	// (1) fid arguments
 	nCalls := 0
 	for _, fn := range p.FuncsOfPkg("p9p") {
@@ -382,4 +386,45 @@ func c20SessionWalkSendsAllNames(r *Run) {
 			"the request carries something other than the caller's name list (e.g. a truncated prefix): the server completes and binds a walk the caller takes for incomplete — the new fid is leaked")
 	})
 	r.Floor("walk", n, 1, "Twalk literal in client.Walk")
+}
+
+// Attach/Auth: every entry handed out on success carries a fid obtained from the allocator in this very call and
+// bound by this call's own (successful) session request — entries are never shared between two hand-outs, so live
+// entries correspond to pairwise distinct server fids.
+func c20Attach(r *Run) {
+	p := r.P
+	n := 0
+	for _, spec := range []struct{ fn, method, field string }{{"p9p:(*fsState).Attach", "Attach", "fid"}, {"p9p:(*fsState).Auth", "Auth", "afid"}} {
+		fn := p.Fn(spec.fn)
+		if fn == nil {
+			r.Undecided("attach", spec.fn, token.NoPos, "anchor not found")
+			continue
+		}
+		r.SawFn(fnName(fn))
+		calls := findCallsInvoke(fn, spec.method, "Session")
+		for _, ret := range returnsOf(fn) {
+			if len(ret.Results) != 2 || !isNilConst(ret.Results[1]) {
+				continue
+			}
+			n++
+			key := fmt.Sprintf("%s: the entry returned on success carries a fid allocated and bound in this call", fnName(fn))
+			flds, _, ok := compositeFields(ret.Results[0])
+			if !ok || flds[spec.field] == nil {
+				r.Bad("attach", key, ret.Pos(), "the entry returned is not built here from a fresh fid (e.g. a cached entry is handed out again): two live entries share one server fid, and clunking one kills the other")
+				continue
+			}
+			fid := flds[spec.field]
+			fresh, _ := freshFid(fn, fid)
+			bound := false
+			for _, c := range calls {
+				for _, a := range c.Call.Args {
+					if a == fid && callSucceededAt(c, ret) {
+						bound = true
+					}
+				}
+			}
+			r.Check(fresh && bound, "attach", key, ret.Pos(), "the returned entry's fid is not a freshly allocated one that this call's own session request bound")
+		}
+	}
+	r.Floor("attach", n, 2, "success returns of fsState.Attach/Auth")
 }
